@@ -1261,6 +1261,15 @@ fn map_op<P: PT, T: Val>(
                 if d != *m || d.len() != m.len() || d.is_empty() != m.is_empty() || c.len() != m.len() {
                     panic!("clone_from differs from clone");
                 }
+                // the destination's arena must be partitioned into tree and free list (C16), whatever
+                // the destination held before
+                {
+                    let mut tmp = String::new();
+                    arena(&d, &mut tmp);
+                    if !tmp.contains("part=1") {
+                        panic!("clone_from left an arena whose slots are not partitioned into tree and free list");
+                    }
+                }
                 // the destination must stay usable exactly like a clone: the same further
                 // insertions and removals give the same map
                 let mut r = m.clone();
